@@ -25,6 +25,7 @@ impl<T> SharedData<T> {
     ///
     /// In case this is needed to be stored and/or used outside of the function,
     /// it is recommended to use the `read_fn` method instead.
+    #[cfg(not(feature = "verif"))]
     pub fn read(&'_ self) -> RwLockReadGuard<'_, T> {
         match self.inner.read() {
             Ok(guard) => guard,
@@ -34,6 +35,7 @@ impl<T> SharedData<T> {
 
     /// This method allows you to read from the inner data and handle errors.
     /// It returns a result of the operation.
+    #[cfg(not(feature = "verif"))]
     pub fn read_fn<F, R>(&self, f: F) -> Result<R, Box<dyn Error>>
     where
         F: FnOnce(&T) -> Result<R, Box<dyn Error>>,
@@ -46,6 +48,7 @@ impl<T> SharedData<T> {
     }
 
     /// This method allows you to read from the inner data and handle errors.
+    #[cfg(not(feature = "verif"))]
     pub fn write_fn<F, R>(&self, f: F) -> Result<R, Box<dyn Error>>
     where
         F: FnOnce(&mut T) -> Result<R, Box<dyn Error>>,
@@ -55,11 +58,155 @@ impl<T> SharedData<T> {
     }
 
     /// This method allows you to write to the inner data without checking for errors.
+    #[cfg(not(feature = "verif"))]
     pub fn write_fn_unchecked<F>(&self, f: F)
     where
         F: FnOnce(&mut T) -> (),
     {
         let mut guard = self.inner.write().expect("Failed to acquire write lock");
+        f(&mut guard)
+    }
+}
+
+/// Read guard handed out by `SharedData::read` when the crate is built with the `verif`
+/// feature: it derefs to the protected value like the plain guard and records the release
+/// of the lock when dropped.
+#[cfg(feature = "verif")]
+pub struct VerifReadGuard<'a, T> {
+    guard: RwLockReadGuard<'a, T>,
+    event: VerifLockEvent,
+}
+
+#[cfg(feature = "verif")]
+impl<'a, T> std::ops::Deref for VerifReadGuard<'a, T> {
+    type Target = T;
+
+    fn deref(&self) -> &T {
+        &*self.guard
+    }
+}
+
+#[cfg(feature = "verif")]
+impl<'a, T> Drop for VerifReadGuard<'a, T> {
+    fn drop(&mut self) {
+        // recorded just before the inner guard (a field) is dropped
+        self.event.record(false);
+    }
+}
+
+/// Identity of one acquisition: which lock, in which mode, requested from where.
+#[cfg(feature = "verif")]
+struct VerifLockEvent {
+    id: usize,
+    ty: &'static str,
+    write: bool,
+    file: &'static str,
+    line: u32,
+}
+
+#[cfg(feature = "verif")]
+impl VerifLockEvent {
+    fn new<T>(
+        lock: &SharedData<T>,
+        write: bool,
+        location: &'static std::panic::Location<'static>,
+    ) -> Self {
+        VerifLockEvent {
+            id: lock as *const SharedData<T> as usize,
+            ty: std::any::type_name::<T>(),
+            write,
+            file: location.file(),
+            line: location.line(),
+        }
+    }
+
+    /// Called before the lock is requested: optional pause point of the replay harness.
+    fn before_request(&self) {
+        crate::verif_hooks::lock_request(self.id, self.ty, self.write, self.file, self.line);
+    }
+
+    fn record(&self, acquire: bool) {
+        crate::verif_hooks::record_lock(crate::verif_hooks::Ev::Lock {
+            id: self.id,
+            ty: self.ty,
+            write: self.write,
+            acquire,
+            file: self.file,
+            line: self.line,
+            thread: crate::verif_hooks::thread_id(),
+        });
+    }
+}
+
+/// Records the release when the closure passed to `read_fn` / `write_fn` returns or unwinds.
+#[cfg(feature = "verif")]
+struct VerifReleaseOnDrop(VerifLockEvent);
+
+#[cfg(feature = "verif")]
+impl Drop for VerifReleaseOnDrop {
+    fn drop(&mut self) {
+        self.0.record(false);
+    }
+}
+
+/// The same four operations, recording every acquisition and release (feature `verif`).
+#[cfg(feature = "verif")]
+impl<T> SharedData<T> {
+    /// `read`, recording the acquisition (and, when the guard is dropped, the release).
+    #[track_caller]
+    pub fn read(&'_ self) -> VerifReadGuard<'_, T> {
+        let event = VerifLockEvent::new(self, false, std::panic::Location::caller());
+        event.before_request();
+        let guard = match self.inner.read() {
+            Ok(guard) => guard,
+            Err(error) => error.into_inner(),
+        };
+        event.record(true);
+        VerifReadGuard { guard, event }
+    }
+
+    /// `read_fn`, recording acquisition and release.
+    #[track_caller]
+    pub fn read_fn<F, R>(&self, f: F) -> Result<R, Box<dyn Error>>
+    where
+        F: FnOnce(&T) -> Result<R, Box<dyn Error>>,
+    {
+        let event = VerifLockEvent::new(self, false, std::panic::Location::caller());
+        event.before_request();
+        let guard = match self.inner.read() {
+            Ok(guard) => guard,
+            Err(error) => error.into_inner(),
+        };
+        event.record(true);
+        let _release = VerifReleaseOnDrop(event);
+        f(&*guard)
+    }
+
+    /// `write_fn`, recording acquisition and release.
+    #[track_caller]
+    pub fn write_fn<F, R>(&self, f: F) -> Result<R, Box<dyn Error>>
+    where
+        F: FnOnce(&mut T) -> Result<R, Box<dyn Error>>,
+    {
+        let event = VerifLockEvent::new(self, true, std::panic::Location::caller());
+        event.before_request();
+        let mut guard = self.inner.write().expect("Failed to acquire write lock");
+        event.record(true);
+        let _release = VerifReleaseOnDrop(event);
+        f(&mut guard)
+    }
+
+    /// `write_fn_unchecked`, recording acquisition and release.
+    #[track_caller]
+    pub fn write_fn_unchecked<F>(&self, f: F)
+    where
+        F: FnOnce(&mut T) -> (),
+    {
+        let event = VerifLockEvent::new(self, true, std::panic::Location::caller());
+        event.before_request();
+        let mut guard = self.inner.write().expect("Failed to acquire write lock");
+        event.record(true);
+        let _release = VerifReleaseOnDrop(event);
         f(&mut guard)
     }
 }
